@@ -156,6 +156,29 @@ CHECKS = {
 }
 NOT_YET = {}
 
+# additions of the second round (appended to the text of the level claim); details: DESIGN.md section 3 "As built, second round"
+ROUND2 = {
+    'C01': 'Second round: a fifth world whose features only partly replace earlier values, probes just above / at / below the surface and lines through fault and slab; history alphabet of 15 operations incl. temperature profiles through two slabs with splines of different sizes.',
+    'C02': 'Second round: modes with one more composition listed at fraction 0 (8 modes).',
+    'C03': 'Second round: suite limits - every feature type x top/bottom {absent, constant, values at points | shallower than the geometric reach} x coordinate system; probes beyond the local depth limits inside the footprint return the background.',
+    'C04': 'Second round: plume min depth below its first cross section.',
+    'C05': 'Second round: uniform raw velocity of all six feature types x {replace, add, subtract} over a moving layer; model ranges and feature tops given as surfaces, probed where the local range is exact.',
+    'C06': 'Second round: negative min depth with probes above the reference surface.',
+    'C08': 'Second round: base worlds with small faults / a small slab on long traces in three directions and with depth surfaces given at 30 points each in general position (8 base worlds).',
+    'C09': 'Second round: forced surface temperature as a dimension, depths just above / at / below the surface, temperature / composition entry points; refusal matrix {coordinate system} x {forced surface} x 3 points x 7 depths x 6 entry points.',
+    'C10': 'Second round: fourth placement (explicit sections fall through to the feature; 4^4 placements), two-valued top truncation / thickness, zero-length first / second segment at one coordinate, coarse independent planar oracle (25 km).',
+    'C11': 'Second round: six scaled / displaced places (0.0025x, 0.025x, 4x the lattice unit) and a closed-form fan oracle for rectangles with one interior value point.',
+    'C12': 'Second round: every rejected document is offered a second time in the same process and must be rejected again.',
+    'C13': 'Second round: slabs and faults next to a pole queried on and around the rotation axis; mass conserving slabs with optional parameters at zero or beyond the slab.',
+    'C14': 'Second round: suite psched - ThreadPool::parallel_for with a counting body, std::atomic of the tool mapped onto a hooked atomic and pthread_mutex interposed, threads {2,3,4} x n up to 5000, all schedules within 3/2/1 | 4/3/2 preemptions; partition sizes around 1024/2048/4096; sequential references from brand-new threads; TSan rounds with mass conserving slabs; 11 grids for -j independence.',
+    'C15': 'Second round: suite validity - combination x deflection {0.5, 0, 1e-3, 1e-2, 0.1, 1} x four size settings (incl. fixed 0, un-normalised random) x 2 seeds, slabs and faults at five positions between trench coordinates.',
+    'C16': 'Second round: every query twice in a row; TSan pass with eight threads sharing one C handle and one C++ wrapper object.',
+    'C17': 'Second round: every requested value must have a column.',
+    'C18': 'Second round: grids with 1331 / 4913 / 4615 nodes, 2..16 threads, all five VTU formats (multi-block compressed arrays).',
+    'C19': 'Second round: conversion round trips on 19 colatitudes within 8 degrees of both poles; one-bend family for the Bezier kernel (queries on the curve normals around the bend, both sides).',
+    'C20': 'Second round: slab length as 15th coordinate plus the full product length x coupling depth x taper x velocity x ridge distance x dip (3^6); linear slab models starting above the slab surface.',
+}
+
 def main():
     props = [json.loads(l) for l in open(f'{V}/properties.jsonl')]
     hooks_commits = []
@@ -170,6 +193,7 @@ def main():
         i = p['id']
         if i in CHECKS:
             lvl, eng, tech, text, note, ref = CHECKS[i]
+            if i in ROUND2: text = text + ' ' + ROUND2[i]
             c = {
                 'property_id': i,
                 'quick_cmd': f'./check {i} --tier quick',
